@@ -10,6 +10,7 @@
 -/
 import PrologVerif.Proofs.DCGItems
 import PrologVerif.Proofs.DCGSemCall
+import PrologVerif.Proofs.DCGSem2Top
 namespace PrologVerif.C17
 open PrologVerif PrologVerif.DCG PrologVerif.Grammar
 
@@ -346,5 +347,229 @@ example : (solve 16 (programOf exampleGrammar) 4
   decide +kernel
 example : (den { uf := 16, engine := false } exampleGrammar 4 true (.nt "a" []) ⟨[], 1⟩
     (Term.list [.atom "x", .atom "y"])).map (·.answers.map (·.2)) = .ok [Term.nilT] := by decide +kernel
+
+/-! ### meaning, beyond ground inputs: unification, arguments, `{G}`, call//N
+
+  Stages A, B, C widen the fragment of `C17_translation_sound_complete_partial` toward the full
+  statement.  The input `l` is now ANY term (a list, a partial list `[hello, W | T]`, a variable:
+  generation), terminals and push-backs may contain variables, so both sides unify and bind.
+
+  Shape of the three theorems.  `q` is the body term, `b` what it reads as, `k` the first variable
+  not in `q`, `l`; the remainder is the fresh variable `S = .var k`.  With the SAME fuel `n`
+  (nesting depth of calls) and the same unification fuel `cfg.uf`, the reference SLD evaluation of
+  the translated body `Body(l, S)` in the translated grammar and the denotation ⟦b⟧ on `l`
+
+   * both give no result, or
+   * both succeed, with the same pending cut, the same number of answers and, answer by answer in
+     the same order, the same instance of `t(q, l, Remainder)` up to renaming of the variables that
+     are left (`Term.canon`, as `projected` does): the bindings of the query's variables, of the
+     variables of the input, and the remainder — on the SLD side `S` under the answer substitution,
+     on the denotation's side its remainder term under its answer substitution; or
+   * the SLD side alone runs out of UNIFICATION fuel (`.error .fuel` against `.ok`): it reaches the
+     same subterms deeper (one unification `S0 = [t1,…,tn | S]`, one unification of the whole
+     head, instead of n resp. arity-many separate ones), so the symmetric "both or neither" is
+     FALSE here — `C17_sld_needs_more_unification_fuel_witness`.  The converse never happens: if the
+     SLD side succeeds so does the denotation.
+
+  How it is proved (Proofs/DCGSem2*.lean).  The two sides use different variables and different
+  stores, so the invariant is a bisimulation up to a one-to-one correspondence of the unbound
+  variables (`World`, `World.Eq`); both sides perform the same unifications in the same order and
+  orientation on related terms, and related inputs give related outcomes (`unify_sim`) — no mgu
+  theory.  Not lock-step, and handled by explicit world steps: the hidden variables (bound on the
+  SLD side only), `S0 = [t… | S]` against an unbound `S0` (one binding against one per list cell:
+  `World.gen`), renaming apart with two different supplies (`World.addVars`).
+-/
+
+/-- **Stage A**: ISO mode; rules `name --> body`, `name, pushback --> body` WITHOUT arguments;
+    terminals and push-backs ARBITRARY terms (variables included, shared within a rule); bodies
+    from `[]`, terminal lists, argument-free non-terminals, `,`, `;`/`|`, if-then(-else), `\\+`,
+    `!`, `{true}`, `{fail}`, `{!}`; rules well-formed (`Rule.wf`: variables below `nv`, as
+    `Rule.ofTerm` delivers them); the input list ANY term. -/
+theorem C17_translation_sound_complete_A (cfg : Cfg) (gr : Grammar) (q l : Term) (b : Body)
+    (hq : Body.ofTerm q = .ok b) (h : SettingA cfg gr b) (n : Nat) :
+    let k := max (boundT q) (boundT l)
+    match solve cfg.uf (programOf gr) n (b.tr l (.var k) (k + 1)).1 ⟨[], k + 1 + b.nhid⟩,
+          den cfg gr n true b ⟨[], k + 1⟩ l with
+    | .ok A, .ok D =>
+      A.cut = D.cut ∧ A.answers.length = D.answers.length ∧
+      ∀ p ∈ A.answers.zip D.answers,
+        (resolve cfg.uf p.1.σ (Term.mk "t" [q, l, .var k])).map Term.canon =
+          (resolve cfg.uf p.2.1.σ (Term.mk "t" [q, l, p.2.2])).map Term.canon
+    | .error _, .error _ => True
+    | .error e, .ok _ => e = .fuel
+    | .ok _, .error _ => False := by
+  intro k
+  exact Agrees.strict ((h.toB.toC true).agrees q l hq n)
+
+/-- **Stage B**: as stage A, and non-terminals and rule heads WITH ARGUMENTS (any terms): head
+    unification against the call, rules renamed apart on both sides with their own supplies. -/
+theorem C17_translation_sound_complete_B (cfg : Cfg) (gr : Grammar) (q l : Term) (b : Body)
+    (hq : Body.ofTerm q = .ok b) (h : SettingB cfg gr b) (n : Nat) :
+    let k := max (boundT q) (boundT l)
+    match solve cfg.uf (programOf gr) n (b.tr l (.var k) (k + 1)).1 ⟨[], k + 1 + b.nhid⟩,
+          den cfg gr n true b ⟨[], k + 1⟩ l with
+    | .ok A, .ok D =>
+      A.cut = D.cut ∧ A.answers.length = D.answers.length ∧
+      ∀ p ∈ A.answers.zip D.answers,
+        (resolve cfg.uf p.1.σ (Term.mk "t" [q, l, .var k])).map Term.canon =
+          (resolve cfg.uf p.2.1.σ (Term.mk "t" [q, l, p.2.2])).map Term.canon
+    | .error _, .error _ => True
+    | .error e, .ok _ => e = .fuel
+    | .ok _, .error _ => False := by
+  intro k
+  exact Agrees.strict ((h.toC true).agrees q l hq n)
+
+/-- **Stage C**: as stage B, and `{G}` with `G` built from true, fail, `!`, `=`, `\\=`, `==`, `\\==`
+    and conjunctions (what the generator of c17.lang uses), and `call//N` (N ≥ 2) whose closure is
+    a non-variable term at translation time (functor not `call`/`phrase`). -/
+theorem C17_translation_sound_complete_C (cfg : Cfg) (gr : Grammar) (q l : Term) (b : Body)
+    (hq : Body.ofTerm q = .ok b) (h : SettingC true cfg gr b) (n : Nat) :
+    let k := max (boundT q) (boundT l)
+    match solve cfg.uf (programOf gr) n (b.tr l (.var k) (k + 1)).1 ⟨[], k + 1 + b.nhid⟩,
+          den cfg gr n true b ⟨[], k + 1⟩ l with
+    | .ok A, .ok D =>
+      A.cut = D.cut ∧ A.answers.length = D.answers.length ∧
+      ∀ p ∈ A.answers.zip D.answers,
+        (resolve cfg.uf p.1.σ (Term.mk "t" [q, l, .var k])).map Term.canon =
+          (resolve cfg.uf p.2.1.σ (Term.mk "t" [q, l, p.2.2])).map Term.canon
+    | .error _, .error _ => True
+    | .error e, .ok _ => e = .fuel
+    | .ok _, .error _ => False := by
+  intro k
+  exact Agrees.strict (h.agrees q l hq n)
+
+/-- **Stage C, closures computed at run time**: `call//N` with ANY closure (a variable bound by
+    the time the call is reached, …).  In the shape of the open statement: whenever both sides
+    succeed they agree.  (A closure can evaluate to the atom `call` or `phrase`: then the SLD side
+    runs call/3 resp. phrase/3 where the denotation finds no non-terminal and gives up, so "both
+    or neither" cannot be claimed.) -/
+theorem C17_translation_sound_complete_C_dynamic (cfg : Cfg) (gr : Grammar) (q l : Term) (b : Body)
+    (hq : Body.ofTerm q = .ok b) (h : SettingC false cfg gr b) (n : Nat) :
+    let k := max (boundT q) (boundT l)
+    ∀ A D, solve cfg.uf (programOf gr) n (b.tr l (.var k) (k + 1)).1 ⟨[], k + 1 + b.nhid⟩ = .ok A →
+      den cfg gr n true b ⟨[], k + 1⟩ l = .ok D →
+      A.cut = D.cut ∧ A.answers.length = D.answers.length ∧
+      ∀ p ∈ A.answers.zip D.answers,
+        (resolve cfg.uf p.1.σ (Term.mk "t" [q, l, .var k])).map Term.canon =
+          (resolve cfg.uf p.2.1.σ (Term.mk "t" [q, l, p.2.2])).map Term.canon := by
+  intro k A D hA hD
+  have := h.agrees q l hq n
+  rw [hA, hD] at this
+  exact this
+
+/-! non-vacuity: the settings hold of concrete grammars, and both sides do succeed there (the
+    kernel evaluates them) -/
+
+/-- stage A: `dup, ab` against the partial list `[U, b, a | T]`:  U = b, then `a`, then the
+    unbound `T` is instantiated to `[P | R]` (generation) and `P` is pushed back: one answer,
+    remainder `[P | R]` -/
+example : SettingA {} exampleGrammarA (.seq (.nt "dup" []) (.nt "ab" [])) := by decide
+example :
+    let q := Term.a2 "," (.atom "dup") (.atom "ab")
+    let l := Term.list [.var 0, .atom "b", .atom "a"] (.var 1)
+    Body.ofTerm q = .ok (.seq (.nt "dup" []) (.nt "ab" [])) ∧
+    (solve 256 (programOf exampleGrammarA) 5 ((Body.seq (.nt "dup" []) (.nt "ab" [])).tr l (.var 2) 3).1 ⟨[], 4⟩).map
+        (fun o => o.answers.map fun st => (resolve 256 st.σ (Term.mk "t" [l, .var 2])).map Term.canon) =
+      .ok [some (Term.mk "t" [Term.list [.atom "b", .atom "b", .atom "a", .var 0] (.var 1), Term.list [.var 0] (.var 1)])] ∧
+    (den {} exampleGrammarA 5 true (.seq (.nt "dup" []) (.nt "ab" [])) ⟨[], 3⟩ l).map
+        (fun o => o.answers.map fun a => (resolve 256 a.1.σ (Term.mk "t" [l, a.2])).map Term.canon) =
+      .ok [some (Term.mk "t" [Term.list [.atom "b", .atom "b", .atom "a", .var 0] (.var 1), Term.list [.var 0] (.var 1)])] := by
+  decide +kernel
+
+/-- stage B: `greeting(X)` against `[hello, W | T]`: two answers, X = world with W = world, and
+    X = W; the remainder is `T` -/
+example : SettingB {} exampleGrammarB (.nt "greeting" [.var 0]) := by decide
+example :
+    let q := Term.mk "greeting" [.var 0]
+    let l := Term.list [.atom "hello", .var 1] (.var 2)
+    Body.ofTerm q = .ok (.nt "greeting" [.var 0]) ∧
+    (solve 256 (programOf exampleGrammarB) 5 ((Body.nt "greeting" [.var 0]).tr l (.var 3) 4).1 ⟨[], 4⟩).map
+        (fun o => o.answers.map fun st => (resolve 256 st.σ (Term.mk "t" [q, l, .var 3])).map Term.canon) =
+      .ok [some (Term.mk "t" [Term.mk "greeting" [.atom "world"], Term.list [.atom "hello", .atom "world"] (.var 0), .var 0]),
+           some (Term.mk "t" [Term.mk "greeting" [.var 0], Term.list [.atom "hello", .var 0] (.var 1), .var 1])] ∧
+    (den {} exampleGrammarB 5 true (.nt "greeting" [.var 0]) ⟨[], 4⟩ l).map
+        (fun o => o.answers.map fun a => (resolve 256 a.1.σ (Term.mk "t" [q, l, a.2])).map Term.canon) =
+      .ok [some (Term.mk "t" [Term.mk "greeting" [.atom "world"], Term.list [.atom "hello", .atom "world"] (.var 0), .var 0]),
+           some (Term.mk "t" [Term.mk "greeting" [.var 0], Term.list [.atom "hello", .var 0] (.var 1), .var 1])] := by
+  decide +kernel
+
+/-- … and in generation mode (the input an unbound variable): the same two answers with
+    `l = [hello, world | R]`, `l = [hello, N | R]` -/
+example :
+    (solve 256 (programOf exampleGrammarB) 5 ((Body.nt "greeting" [.var 0]).tr (.var 1) (.var 2) 3).1 ⟨[], 3⟩).map
+        (fun o => o.answers.map fun st => (resolve 256 st.σ (Term.mk "t" [.var 0, .var 1, .var 2])).map Term.canon) =
+    (den {} exampleGrammarB 5 true (.nt "greeting" [.var 0]) ⟨[], 3⟩ (.var 1)).map
+        (fun o => o.answers.map fun a => (resolve 256 a.1.σ (Term.mk "t" [.var 0, .var 1, a.2])).map Term.canon) ∧
+    (den {} exampleGrammarB 5 true (.nt "greeting" [.var 0]) ⟨[], 3⟩ (.var 1)).map (·.answers.length) = .ok 2 := by
+  decide +kernel
+
+/-- stage C: `pair(A, B)` (static closures, `{X = f(Y)}`, `{A \\== B}`) against `[x, V | T]`: one answer
+    A = f(x), B = f(V); against `[x, x]`: none (`f(x) \\== f(x)` fails) -/
+example : SettingC true {} (exampleGrammarC.take 2) (.nt "pair" [.var 0, .var 1]) := by decide
+example : SettingC false {} exampleGrammarC (.nt "twice" [.atom "item", .var 0, .var 1]) := by decide
+example :
+    let l := Term.list [.atom "x", .var 2] (.var 3)
+    (solve 256 (programOf exampleGrammarC) 6 ((Body.nt "pair" [.var 0, .var 1]).tr l (.var 4) 5).1 ⟨[], 5⟩).map
+        (fun o => o.answers.map fun st => (resolve 256 st.σ (Term.mk "t" [.var 0, .var 1, l, .var 4])).map Term.canon) =
+      .ok [some (Term.mk "t" [Term.mk "f" [.atom "x"], Term.mk "f" [.var 0], Term.list [.atom "x", .var 0] (.var 1), .var 1])] ∧
+    (den {} exampleGrammarC 6 true (.nt "pair" [.var 0, .var 1]) ⟨[], 5⟩ l).map
+        (fun o => o.answers.map fun a => (resolve 256 a.1.σ (Term.mk "t" [.var 0, .var 1, l, a.2])).map Term.canon) =
+      .ok [some (Term.mk "t" [Term.mk "f" [.atom "x"], Term.mk "f" [.var 0], Term.list [.atom "x", .var 0] (.var 1), .var 1])] ∧
+    (den {} exampleGrammarC 6 true (.nt "twice" [.atom "item", .var 0, .var 1]) ⟨[], 5⟩ l).map (·.answers.length) = .ok 1 ∧
+    (den {} exampleGrammarC 6 true (.nt "pair" [.var 0, .var 1]) ⟨[], 5⟩ (Term.list [.atom "x", .atom "x"])).map
+        (·.answers.length) = .ok 0 := by
+  decide +kernel
+
+/-! ### findings about the STATEMENTS (none about the translation) -/
+
+/-- **the symmetric shape "both sides error or both succeed" is false beyond ground terminals of
+    bounded size**: with unification fuel 3 the denotation consumes `[x, x, x]` (three unifications
+    of depth 1) while the ONE unification `[x,x,x] = [x,x,x | S]` of the translation runs out of
+    fuel at depth 4.  (In `C17_translation_sound_complete_partial` the hypothesis `Body.need ≤ uf`
+    excludes this; with variables no static bound exists.)  Not a defect: fuel is an artefact of
+    the two evaluators. -/
+theorem C17_sld_needs_more_unification_fuel_witness :
+    let b := Body.terminals [.atom "x", .atom "x", .atom "x"]
+    let l := Term.list [.atom "x", .atom "x", .atom "x"]
+    solve 3 (programOf []) 5 (b.tr l (.var 0) 1).1 ⟨[], 1⟩ = .error .fuel ∧
+    (den { uf := 3 } [] 5 true b ⟨[], 1⟩ l).map (·.answers.map (·.2)) = .ok [Term.nilT] := by
+  decide +kernel
+
+/-- **the open statement, as written, is FALSE**: it quantifies over every `gr : Grammar`, also
+    over rules whose field `nv` is smaller than their variables (`Rule.ofTerm` never produces such
+    a rule, and the driver only evaluates the statement on rules it read).  For
+    `a(X) --> [X]` with `nv = 0` the reference translation takes variable 0 as `S0`:
+    `a(V0, V0, V2) :- V0 = [V0 | V2]`; against `[x]` the SLD side fails, the denotation (which
+    renames with the same too small `nv`) answers `X = x`.  Neither engine/dcg.go (it draws its
+    variables from the engine's supply) nor the denotation is at fault: the statement lacks the
+    hypothesis `Rule.wf`. -/
+theorem C17_statement_illformed_rule_witness : ¬ C17_translation_sound_complete_statement := by
+  intro h
+  have hA : solve 256 (programOf illFormedGrammar) 5
+      ((Body.nt "a" [.var 0]).tr (Term.list [.atom "x"]) (.var 1) 2).1 ⟨[], 2⟩ = .ok ⟨[], false⟩ := by
+    decide +kernel
+  have hD : Grammar.phrase {} illFormedGrammar 5 (.nt "a" [.var 0]) ⟨[], 2⟩ (Term.list [.atom "x"]) (.var 1) =
+      .ok [⟨[(1, Term.nilT), (2, .atom "x"), (0, .var 2)], 2⟩] := by
+    decide +kernel
+  have := h {} illFormedGrammar (Term.mk "a" [.var 0]) (Term.list [.atom "x"]) (.var 1) (.nt "a" [.var 0]) 5
+    rfl (by decide +kernel) (by decide +kernel) ⟨[], false⟩ _ hA hD (by decide +kernel)
+  revert this
+  decide +kernel
+
+/-- **full statement, with the missing hypothesis (open).**  As
+    `C17_translation_sound_complete_statement`, for grammars whose rules are well-formed
+    (`Rule.wf`: all variables of a rule are below its `nv`). -/
+def C17_translation_sound_complete_wf_statement : Prop :=
+  ∀ (cfg : Cfg) (gr : Grammar) (q l r : Term) (b : Body) (n : Nat),
+    cfg.engine = false → Body.ofTerm q = .ok b → (∀ ru ∈ gr, clash ru.name ru.args.length = false) →
+    (∀ ru ∈ gr, ru.wf = true) →
+    let k := max (boundT q) (max (boundT l) (boundT r))
+    let st0 : St := { σ := [], next := k }
+    let g := b.tr l r k
+    let tmpl := Term.mk "t" [q, l, r]
+    ∀ A D, solve cfg.uf (programOf gr) n g.1 { st0 with next := g.2 } = .ok A →
+      Grammar.phrase cfg gr n b st0 l r = .ok D →
+      (∀ o ∈ projected cfg.uf tmpl A.answers ++ projected cfg.uf tmpl D, o.isSome) →
+      projected cfg.uf tmpl A.answers = projected cfg.uf tmpl D
 
 end PrologVerif.C17
